@@ -141,7 +141,7 @@ def run_case(case):
 def bounded(tier, seed):
 	rnd = random.Random(seed)
 	cases = [{'kind': 'foreign', 'what': w} for w in ('empty', 'text', 'fasta', 'hdf5-other', 'hdf5-magic-only', 'truncated')]
-	for _ in range(40 if tier == 'quick' else 500):
+	for _ in range(40 if tier == 'quick' else 2500):
 		cases.append({'kind': 'roundtrip', 'seed': rnd.randrange(10 ** 6), 'k': rnd.choice([1, 3, 4, 5, 8, 9, 16, 17, 32]), 'prefix': rnd.choice(['A', 'ATG', 'acgt']),
 		              'n': rnd.choice([1, 1, 2, 5, 30]), 'ids': rnd.choice(['str', 'int', 'bytes', 'none']), 'meta': rnd.random() < .7,
 		              'container': rnd.choice(['array', 'list']), 'compression': rnd.choice([None, None, 'gzip', 'lzf'])})
